@@ -9,6 +9,8 @@ package pe
 //	(iii) TestC18_Argv: argument vectors of length 0..3; which mode starts, and that nothing else does.
 
 import (
+	"path/filepath"
+	"os"
 	"encoding/hex"
 	"encoding/json"
 	"fmt"
@@ -155,7 +157,8 @@ func drawBytesLatin1(t *rapid.T, label string) []rune {
 }
 
 type c18ConfigCase struct {
-	Cfg emuConfig `json:"config"`
+	Cfg    emuConfig `json:"config"`
+	Decoys bool      `json:"decoy_files,omitempty"`
 }
 
 func evalC18Config(c *c18ConfigCase) ev.Verdict {
@@ -167,6 +170,18 @@ func evalC18Config(c *c18ConfigCase) ev.Verdict {
 	defer removeAll(dir)
 	if err := writeFile(dir+"/config.yaml", c.Cfg.YAML()); err != nil {
 		return ev.Verdict{Err: err, Key: "harness"}
+	}
+	if c.Decoys {
+		// other files that look like configurations lie around (a source-tree layout, editor back-ups, a conf.d
+		// directory): the configuration file is ./config.yaml and nothing else
+		decoy := shipped
+		decoy.GnbName, decoy.MCC, decoy.MNC, decoy.InitialIMSI, decoy.SST = "decoy", "999", "99", "999990000000001", 7
+		decoy.AmfNgapPort, decoy.Reg, decoy.UeNumber = 1, 9, 9
+		for _, f := range []string{"src/config.yaml", "config.yml", "config.yaml.bak", "config.yaml~", ".config.yaml", "conf/config.yaml", "config/config.yaml", "config.yaml.d/00-local.yaml", "config.json"} {
+			_ = os.MkdirAll(filepath.Dir(filepath.Join(dir, f)), 0755)
+			_ = writeFile(filepath.Join(dir, f), decoy.YAML())
+		}
+		v.Classes = append(v.Classes, "decoy-configuration-files-present")
 	}
 	in, _ := json.Marshal(map[string]interface{}{"ops": []procOp{{Op: "config", Dir: dir}}})
 	res := converse(spawn{Bin: binPath("procdriver"), Dir: dir, Stdin: in}, refamf.Scenario{Prov: refamf.Provision{MCC: "001", MNC: "01", IMSI: "001010000000001", K: shipped.K, OPc: shipped.OPC}}, bound(0))
@@ -221,7 +236,8 @@ func evalC18Config(c *c18ConfigCase) ev.Verdict {
 func TestC18_Config(t *testing.T) {
 	haveBins(t, "procdriver")
 	r := ev.New(t, "C18", "TestC18_Config")
-	ev.Run(t, r, func(t *rapid.T) *c18ConfigCase { return &c18ConfigCase{Cfg: genAnyConfig(t)} }, evalC18Config)
+	ev.Run(t, r, func(t *rapid.T) *c18ConfigCase { return &c18ConfigCase{Cfg: genAnyConfig(t), Decoys: rapid.IntRange(0, 3).Draw(t, "decoys") == 0}
+	}, evalC18Config)
 }
 
 // ----------------------------------------------------------------------------------
